@@ -315,6 +315,29 @@ def r06_2(ck):
                        'into the inverse with %s: when two ports of one '
                        'process are wired to the same node one update '
                        'overwrites the other' % comb, c)
+    # dict-valued port updates are MERGED into what is already there (both
+    # with and without multi-updates): an overwrite loses what an earlier
+    # port of the same process placed at or below that node
+    for node in cfg.stmt_nodes():
+        st = cfg.info[node]['stmt']
+        if st is None or not within(st, loop) or cfg.info[node]['kind'] \
+                != 'stmt':
+            continue
+        g = cfg.guards(node)
+        if ('in', key, 'update') not in g or \
+                ('notisinstance', pathv, 'dict') not in g or not any(
+                    a[0] == 'isinstance' and a[2] == 'dict' and a[1] != pathv
+                    for a in g):
+            continue
+        for c in A.calls_in(st, 'assoc_path', nested=False):
+            if A.is_name(A.arg_of(c, 0), 'inverse'):
+                ck.fail('R06.2', f, c,
+                        'a dictionary-valued port update is written into '
+                        'the inverse with assoc_path (overwrite) instead of '
+                        'being merged: what an earlier port of the same '
+                        'process placed there is lost', c,
+                        what='dict-valued port updates are merged into the '
+                        'inverse')
     ck.floor('R06.2', n, 3, 'stores into the inverse in the port branch')
     dm = ck.fn('deep_merge_multi_update', 'library.dict_utils')
     txt = A.unparse(dm.node)
